@@ -12,7 +12,10 @@
      CASE (since fix: b37af60, the fold of evaluate_case): branch types are combined from the last branch; when THEN and
                  the accumulated type differ the result is Float64 if either is Float64, otherwise THEN's type
      COUNT -> Int64, SUM -> Int64 / Float64 (promote_sum_type), AVG -> Float64, MIN / MAX -> input type
-     joins concatenate (outer joins keep types), set operations take the left side's types.
+     joins concatenate (outer joins keep types); INTERSECT / EXCEPT take the left side's types;
+     UNION / UNION ALL (since fix: f5f2dbc, common_union_type in the binder): per column the wider integer, Float64 when a
+                 float meets another numeric type, otherwise the left side's type (non-numeric pairs are typed by the model
+                 only when both sides flow into it; the rest is compared reported-vs-returned)
    Covered: every operator of `query` except VALUES; every expression of `expr` except a bare NULL literal
    (Arrow type Null). COALESCE arguments must be of one class (all integers, all floats, or one type).
    CASE branches: evaluate_case casts every branch to the folded type with arrow's cast kernel. The model types a CASE
@@ -153,6 +156,16 @@ Section Typing.
       end.
   End Expr.
 
+  (* common_union_type (src/planner/binder.rs) *)
+  Definition num_rank (t : ty) : nat :=
+    match t with TI8 => 1 | TI16 => 2 | TI32 => 3 | TI64 => 4 | TF32 => 5 | TF64 => 6 | _ => 0 end.
+  Definition union_ty (a b : ty) : ty :=
+    if ty_eqb a b then a
+    else match num_rank a, num_rank b with
+         | O, _ | _, O => a
+         | la, lb => if Nat.leb la 4 && Nat.leb lb 4 then (if Nat.leb lb la then a else b) else TF64
+         end.
+
   Definition agg_ty (f : aggfn) (t : ty) : option ty :=
     match f with
     | ACountStar | ACount | ACountDistinct => Some TI64
@@ -197,9 +210,17 @@ Section Typing.
               | _, _ => None end
           | None => None end
       | QDistinct q => schema_g q
-      | QSetOp _ _ l r =>
+      | QSetOp op _ l r =>
           match schema_g l, schema_g r with
-          | Some el, Some er => if all2 same_class el er then Some el else None
+          | Some el, Some er =>
+              match op with
+              | SUnion =>
+                  if Nat.eqb (length el) (length er) then
+                    let env := map (fun ab => union_ty (fst ab) (snd ab)) (combine el er) in
+                    if all2 flows el env && all2 flows er env then Some env else None
+                  else None
+              | _ => if all2 same_class el er then Some el else None
+              end
           | _, _ => None end
       | QSort q keys =>
           match schema_g q with
@@ -222,21 +243,9 @@ Definition db_conforms (mx : bool) (db : list rel) (dbs : list (list ty)) : Prop
 Definition well_typed (dbs : list (list ty)) (db : list rel) (q : query) : Prop :=
   db_conforms true db dbs /\ exists env, schema_of dbs q = Some env.
 
-(* recorded class union-all-mixed-types, decided by the statement's shape: a UNION ALL whose two sides have
-   different column types. The plan reports the left side's types and UnionExec forwards each side's batches
-   unchanged, so the right side's batches carry other types than reported. *)
-Fixpoint known_union_mixed (dbs : list (list ty)) (q : query) : bool :=
-  match q with
-  | QTable _ _ | QValues _ _ => false
-  | QFilter q' _ | QProject q' _ | QAgg q' _ _ | QDistinct q' | QSort q' _ | QLimit q' _ _ => known_union_mixed dbs q'
-  | QJoin _ l r _ => known_union_mixed dbs l || known_union_mixed dbs r
-  | QSetOp op all l r =>
-      known_union_mixed dbs l || known_union_mixed dbs r
-      || match op, all, schema_of dbs l, schema_of dbs r with
-         | SUnion, true, Some el, Some er => negb (list_eqb ty_eqb el er)
-         | _, _, _, _ => false
-         end
-  end.
+(* The class union-all-mixed-types is closed for every shape this AST can express (columns are positional, so an
+   input never repeats an output name); what is left of it — a UNION ALL input that repeats an output column
+   name is not cast by the binder — is a property of the SQL text and is classified in checks/C30.py. *)
 
 (* encoding of types for the check: 0 i64, 1 i32, 2 f64, 3 str, 4 bool, 5 date, 6 i16, 7 i8, 8 f32 *)
 Definition ty_code (t : ty) : Z :=
